@@ -530,6 +530,81 @@ fn qf_item(ctx: &Ctx, i: usize, rep: &mut Report) {
     let _ = c13::RULE;
 }
 
+/// A cuckoo table with many buckets held at capacity: alternating deletes and inserts, so that
+/// inserts succeed after anything between 0 and the full budget of evictions (or fail). Only len()
+/// and a small universe are observed (cheap), over tens of thousands of operations.
+fn cuckoo_churn_item(ctx: &Ctx, i: usize, rep: &mut Report) {
+    let mut r = FastRng::new(ctx.sub_seed(&[4, i as u64]));
+    let cfg = CuckooCfg { bucketsize: 2, n_buckets: *r.pick(&[128usize, 256, 512]), l: *r.pick(&[8usize, 16, 40]), bh: CtlBuildHasher::new(HMode::Mix, r.next()), rng: RngSpec::Fast(r.next()) };
+    let label = cfg.label();
+    rep.config(&label);
+    let cap = cfg.slots();
+    let steps = ctx.tier.pick(12_000, 60_000);
+    let res = guarded(|| -> Option<(String, String)> {
+        let mut f = cfg.make();
+        let mut stored: Vec<u64> = vec![];
+        let mut next_key = 1u64;
+        let mut model_len = 0usize;
+        for step in 0..steps {
+            beat();
+            // keep the table within a few elements of its capacity
+            let do_insert = stored.len() + 3 < cap || r.chance(0.6);
+            if do_insert {
+                let k = next_key;
+                next_key += 1;
+                let before = Flt::len(&f);
+                match Flt::insert(&mut f, k) {
+                    Ok(_) => {
+                        stored.push(k);
+                        model_len += 1;
+                    }
+                    Err(()) => {
+                        rep.count("failed_inserts_compared", 1);
+                        if Flt::len(&f) != before {
+                            return Some(("C12/cuckoo/failed-insert/len".into(), format!("step {}: insert returned Err but len() {} -> {}", step, before, Flt::len(&f))));
+                        }
+                        if Flt::query(&f, k) && l_wide(&cfg) {
+                            return Some(("C12/cuckoo/failed-insert/query-became-true".into(), format!("step {}: insert({}) returned Err but the key is reported present", step, k)));
+                        }
+                    }
+                }
+            } else if !stored.is_empty() {
+                let j = r.below(stored.len() as u64) as usize;
+                let k = stored.swap_remove(j);
+                if Flt::delete(&mut f, k) == Some(true) {
+                    model_len -= 1;
+                } else {
+                    return Some(("C12/cuckoo/continuation-diverges-after-failed-call".into(), format!("step {}: delete of the stored key {} returned false", step, k)));
+                }
+            }
+            if Flt::len(&f) != model_len {
+                return Some(("C12/cuckoo/failed-insert/len".into(), format!("step {}: len() = {} but successful inserts - deletes = {}", step, Flt::len(&f), model_len)));
+            }
+            if step % 2000 == 0 {
+                if let Some(k) = stored.iter().find(|k| !Flt::query(&f, **k)) {
+                    return Some(("C12/cuckoo/continuation-diverges-after-failed-call".into(), format!("step {}: stored key {} is no longer reported present", step, k)));
+                }
+            }
+        }
+        None
+    });
+    rep.evaluations += steps as u64;
+    match res {
+        Ok(None) => {
+            let mut h = CaseHash::new(&label);
+            h.push(i as u64);
+            rep.nontrivial(h.0);
+        }
+        Ok(Some((sig, what))) => rep.violation(sig, format!("{} (churn at capacity): {}", label, what), json!({"config": cfg, "steps": steps, "item": i})),
+        Err(msg) => rep.violation(format!("C12/panic/cuckoo-insert/{}", panic_class(&msg)), format!("{}: panicked: {}", label, msg), json!({"config": cfg, "item": i})),
+    }
+}
+
+/// fingerprints wide enough that a never-inserted key is not expected to collide
+fn l_wide(cfg: &CuckooCfg) -> bool {
+    cfg.l >= 40
+}
+
 /// big quotient filters: a union that overshoots the capacity by only a few elements (fails at one
 /// of the last transferred fingerprints after thousands of successful transfers)
 fn qf_large_item(ctx: &Ctx, i: usize, rep: &mut Report) {
@@ -608,6 +683,7 @@ pub fn run(ctx: &Ctx) -> Report {
     };
     let mut rep = par_run(ctx, n, |i, rep| match i % 4 {
         _ if i % 200 == 199 => qf_large_item(ctx, i, rep),
+        _ if i % 400 == 7 && !ctx.is_dbg() => cuckoo_churn_item(ctx, i, rep),
         0 => cuckoo_item(ctx, i, false, rep),
         1 | 2 => cuckoo_item(ctx, i, true, rep),
         _ => qf_item(ctx, i, rep),
